@@ -332,12 +332,31 @@ func WriteAhead(check string, c any) {
 	}
 	raw, _ := json.Marshal(c)
 	b, _ := json.Marshal(Failure{Check: check, Case: raw})
-	os.WriteFile(out+".current", b, 0o644)
+	aheadMu.Lock()
+	defer aheadMu.Unlock()
+	if aheadFile == nil {
+		f, err := os.OpenFile(out+".current", os.O_CREATE|os.O_RDWR|os.O_TRUNC, 0o644)
+		if err != nil {
+			return
+		}
+		aheadFile = f
+	}
+	// one open file rewritten in place: cheap enough to do for every case
+	aheadFile.WriteAt(b, 0)
+	aheadFile.Truncate(int64(len(b)))
 }
 
+var (
+	aheadMu   sync.Mutex
+	aheadFile *os.File
+)
+
+// ClearAhead: no case is in flight (an empty file).
 func ClearAhead() {
-	if out := os.Getenv("VERIF_OUT"); out != "" {
-		os.Remove(out + ".current")
+	aheadMu.Lock()
+	defer aheadMu.Unlock()
+	if aheadFile != nil {
+		aheadFile.Truncate(0)
 	}
 }
 
